@@ -65,6 +65,8 @@ def judge(ctx: vf.Ctx, js: dict, r: dict, source: str) -> bool:
     gsname = ms.get('gs', 'default')
     key = dict(kind=kind, level=lvl, model=gsname, shape=ms.get('shape'), n=ms['n'], tag=js.get('tag'),
                circ=js.get('circuit'), iseed=js.get('iseed'), seed=js.get('seed'))
+    if r.get('skipped'):
+        return False
     if r.get('timeout') or r.get('worker_failed'):
         ctx.count('compile_timeout' if r.get('timeout') else 'compile_worker_failed')
         return False
@@ -135,8 +137,9 @@ def run(ctx: vf.Ctx):
                    'harness/wfcommon.py oracle (numpy unitary of input / output)', 'python harness']
     t_c = time.time()
     if ctx.broken:
-        W.theorem_failure_search(ctx, 'c01', 110 if ctx.quick() else 900, judge, thorough_jobs)
-    jobs = quick_jobs(ctx.rng) if ctx.quick() else thorough_jobs(ctx.rng, 100)
+        W.theorem_failure_search(ctx, 'c01', 420 if ctx.quick() else 1200, judge, thorough_jobs)
+    jobs = W.corpus_jobs('C01') + (quick_jobs(ctx.rng) if ctx.quick() else thorough_jobs(ctx.rng, 100))
+    ctx.cov['corpus_jobs'] = sum(1 for j in jobs if str(j.get('tag', '')).startswith('corpus:'))
     budget = max(60.0, 185.0 - (time.time() - t_c)) if ctx.quick() else 1500
     res = W.run_jobs(jobs, budget)
     for js, r in zip(jobs, res):
